@@ -37,6 +37,7 @@ Section L1.
                   | Some p =>
                       match pk p, pdefault p with
                       | VarKw, _ => true
+                      | PosOnly, _ | VarPos, _ => true   (* a **kwargs entry spelled like that parameter *)
                       | _, Some d => negb (veq d (snd kv))
                       | _, None => true
                       end
